@@ -560,6 +560,31 @@ func runKeyvalue(c *h.Ctx, rounds int) {
 		} else {
 			c.Held("kv.id.stable")
 		}
+		// objects reached through a variable: their ids are stable over
+		// repeated executions given the same variables map (each execution
+		// builds its options anew, as callers do)
+		if round%4 == 2 {
+			vmap := map[string]any{"o": h.Decode(`{"p":{"x":1,"y":2},"q":{"z":3},"r":[{"s":4}]}`, round%8 == 2), "n": 1.0}
+			for _, vp := range []string{"$o.keyvalue()", "$o.*.keyvalue().id", "$o.**.keyvalue()", "$o.r[*].keyvalue().id", "$ ? (exists($o.p.keyvalue() ? (@.id > 0)))"} {
+				vpp := cachedPath(vp)
+				if vpp == nil {
+					continue
+				}
+				a1 := h.Call("query", vpp, doc, h.Opts{Vars: vmap})
+				for i := 0; i < 8; i++ {
+					sink = append(sink, make([]byte, 1<<10))
+				}
+				a2 := h.Call("query", vpp, doc, h.Opts{Vars: vmap})
+				c.Eval(2)
+				if a1.Class == h.OK && a2.Class == h.OK {
+					if h.CanonBag(a1.Items) != h.CanonBag(a2.Items) {
+						c.Violate("kv.id.stable", h.F("kind", "variable-object"), fmt.Sprintf("%s with the same variables map returned %s, then %s", vp, h.CanonBag(a1.Items), h.CanonBag(a2.Items)), h.Case{Kind: "kv", Path: vp})
+					} else {
+						c.Held("kv.id.stable")
+					}
+				}
+			}
+		}
 		// the id .keyvalue() gives a triple is the same whether the second
 		// .keyvalue() is chained or sits inside a filter on the triple
 		if round%4 == 1 {
@@ -793,6 +818,29 @@ func runC16(c *h.Ctx) {
 								c.Held("decimal.args")
 							}
 						}
+					}
+				}
+			}
+		}
+	}
+	// powers of ten: 10^k has k+1 digits - it does not fit p = k, it fits p = k+1
+	for k := 0; k <= 22; k++ {
+		idx++
+		if !c.Mine(idx) {
+			continue
+		}
+		t := "1" + strings.Repeat("0", k)
+		for _, neg := range []string{"", "-"} {
+			for _, rp := range []string{"f64", "num", "str", "i64", "lit"} {
+				for _, sc := range []int64{0, 2, 7} {
+					if k > 0 {
+						decimalCheck(c, neg+t, rp, int64(k)+sc, sc)
+					}
+					decimalCheck(c, neg+t, rp, int64(k)+1+sc, sc)
+					// the largest number with k digits and the tie below 10^k
+					if k > 0 && k < 16 {
+						decimalCheck(c, neg+strings.Repeat("9", k), rp, int64(k)+sc, sc)
+						decimalCheck(c, neg+strings.Repeat("9", k)+".5", rp, int64(k)+sc, sc)
 					}
 				}
 			}
